@@ -3244,6 +3244,11 @@ class Fparser2Reader():
             loop_body = loop.loop_body
             loop_body.ast = node
         elif ctrl[0].items[3] is not None:
+            if ctrl[0].items[3].items[1] is not None:
+                # The mask expression of a DO CONCURRENT selects which
+                # iterations are executed and cannot be dropped.
+                raise NotImplementedError(
+                    "DO CONCURRENT with a mask expression is not supported")
             # The triplet is the var=X:X:X representing the variable with the
             # start, stop and step boundaries of the ForAll construct. We use
             # a walk because Loop concurrent can have a list of triplets that
